@@ -287,7 +287,9 @@ TOKEN_RE = re.compile(r'(?:"(?:[^"\\]|\\.)*"|\\.|[^\s"\\])+', re.S)
 REPL = ["0", "1", "255", "256", "65535", "65536", "4294967295", "4294967296", "281474976710656", "-1", "1.5", "nan", "inf",
         "-inf", "1e400", "1e10", "-1e10", "a", "A", "@", ".", "-", '""', "\\000", "\\255", "\\256", "nanm", "infm", "-100001m",
         "-100000.00m", "42849672.95m", "42849672.96m", "1e10m", "90000000.00m", "0.00m", "00", "aa", "AAAA", "=", "\\#", "TYPE1",
-        "N", "W", "( )", "1.2.3.4", "::", "1:1.2.3.4/33", "key1=", "alpn=", "-.-", "20000101000000", "99999999999999"]
+        "N", "W", "( )", "1.2.3.4", "::", "1:1.2.3.4/33", "key1=", "alpn=", "-.-", "20000101000000", "99999999999999",
+        # one octet more than a character-string can hold, quoted and bare (seed C05-14)
+        '"' + "x" * 256 + '"', "y" * 256]
 
 
 def judge_token_text(spec, rdclass, text, probs):
